@@ -180,6 +180,7 @@ type World struct {
 	Negative  string            // description of the spliced unsupported constituent (C09)
 	RawFiles  map[string]string // extra verbatim files (relative path -> content)
 	PName     string            // package name of p ("" = p); the directory and import path stay .../p
+	PrefixRot int               // rotation of the -pluginprefix pairs on the command line
 	Twin      int               // > 0: a second generated-for package twin/p with p's package name and type names (variant)
 }
 
